@@ -15,8 +15,8 @@ import (
 //
 //verif:harness property=C19 theory=bv tier=quick replay=engine
 func VerifC19_QueuedCallerServedByLaterRelease() {
-	listening, served, _, q := verifReleaseKeepsWaiters(3)
-	d := q.delegate.(*recLimiter)
+	o := verifReleaseKeepsWaiters(2, 3)
+	d, listening, served := o.d, o.listening, o.served
 	nServed := verif.B2I(served[0]) + verif.B2I(served[1])
 	verif.Assert("served-at-most-the-granted-reacquires", nServed <= d.grants)
 	both := verif.And(listening[0], listening[1])
